@@ -92,5 +92,21 @@ CHECKS["C01"] = {
     "note": "finite lattice and grid (not all Python values); acceptance model left open where the documentation is "
             "silent; trusted base: predicates in props/lattice.py",
 }
+CHECKS["C03"] = {
+    "category": "exploration",
+    "technique": "bounded exhaustive differential enumeration: compiled validator vs Python validator vs first accepting alternative, over configuration grid x value lattice",
+    "text": "Every grid configuration carrying a fast-validation descriptor (all scalar/cast types, every Range "
+            "shape, Enum, Map, Tuple, Instance/Type/Supports/AdaptsTo x allow_none x adapt, This, Callable, Module, "
+            "every ordered pair of 29 members as Either and Union, triples, a nested compound with slow members on "
+            "both levels) x the 150-value lattice: CTrait.validate (compiled) and handler.validate (Python) must "
+            "accept the same values with equal results of the same exact type and Python TraitError implies "
+            "compiled TraitError; a compound must give exactly what its first accepting alternative gives alone "
+            "(documented evaluation order); the same member used as a Tuple member and as a List item must decide "
+            "as it does alone.",
+    "note": "finite lattice; types without a Python-level validate (Module) have nothing to compare with; "
+            "Instance(adapt='default') is kept out of compounds (the 'default' it falls back to is ambiguous "
+            "there); where the Python method lets a foreign protocol exception escape only non-acceptance is "
+            "required of the compiled path",
+}
 
 NOT_CLAIMED = {}
